@@ -164,7 +164,7 @@ pub fn h09<const N1: usize, const N2: usize>(s1: u8, s2: u8) {
 macro_rules! frag {
     ($name:ident, $n1:expr, $n2:expr, $s1:expr, $s2:expr) => {
         #[kani::proof]
-        #[kani::unwind(6)]
+        #[kani::unwind(4)]
         fn $name() {
             h09::<$n1, $n2>($s1, $s2)
         }
